@@ -45,7 +45,7 @@ func c19RPCRound(r *verifkit.Run, round, nCreate int) {
 		r.Inconclusive("cannot open database: " + err.Error())
 		return
 	}
-	defer db.Close()
+	defer mdkClose(db)
 	srv, err := mdkServe(db)
 	if err != nil {
 		r.Inconclusive("cannot start rpc server: " + err.Error())
@@ -72,7 +72,15 @@ func c19RPCRound(r *verifkit.Run, round, nCreate int) {
 		limit int32
 		at    int // started after this many creations
 	}
-	subs := []sub{{0, 1000, 0}, {0, 7, 0}, {0, 100, 505}, {0, 1000, 520}, {0, 3, 560}}
+	// the later subscribers are aimed at the ring cache of the newest 500 mappings: just under the
+	// newest id, at the cache's lower edge, and 1 / 2 / 9 / 16 / 40 ids below the edge
+	subs := []sub{{0, 1000, 0}, {0, 7, 0}, {0, 100, 505}, {0, 1000, 530}, {0, 1000, 530}, {0, 3, 530}, {0, 1000, 545}, {0, 50, 545}, {0, 1000, 560}}
+	cacheEdge := func() (minID int32, enabled bool) {
+		h := srv.Handler
+		h.mappingCacheMx.RLock()
+		defer h.mappingCacheMx.RUnlock()
+		return h.mappingCache[h.mappingHead].Value, h.mappingHead != h.mappingTail
+	}
 	answers := make([][]c19RPCAnswer, len(subs))
 	started := make([]bool, len(subs)) // owned by the requesting goroutine
 	pollCtx, stopPolling := context.WithCancel(context.Background())
@@ -127,13 +135,19 @@ func c19RPCRound(r *verifkit.Run, round, nCreate int) {
 		for s := range subs {
 			if subs[s].at == created && !started[s] {
 				// start below, at, or just under the newest id: the ring cache holds the newest 500
-				switch s {
-				case 2:
-					subs[s].start = maxID - 3
-				case 3:
-					subs[s].start = max(0, maxID-499)
-				case 4:
-					subs[s].start = max(0, maxID-510)
+				if s >= 2 {
+					edge, enabled := cacheEdge()
+					if enabled {
+						r.Count("rpc.subscribers_aimed_at_enabled_cache", 1)
+					}
+					switch s {
+					case 2:
+						subs[s].start = maxID - 3
+					case 3:
+						subs[s].start = edge
+					default:
+						subs[s].start = max(0, edge-[]int32{1, 2, 9, 16, 40}[s-4])
+					}
 				}
 				started[s] = true
 				startSub(s)
